@@ -368,6 +368,15 @@ fn write_evidence(ctx: &Ctx, known_hits: &[String], new_viols: usize) {
         eprintln!("MACHINERY-ERROR: cannot write {}: {e}", p.display());
         std::process::exit(2);
     }
+    // keep a copy of the last thorough run next to the per-run evidence file
+    if !ctx.quick() {
+        let tdir = root().join("evidence_thorough");
+        let _ = std::fs::create_dir_all(&tdir);
+        let _ = std::fs::write(
+            tdir.join(format!("{}.json", ctx.id)),
+            serde_json::to_string_pretty(&ev).unwrap(),
+        );
+    }
 }
 
 /// Entry point of every check binary.
